@@ -9,6 +9,8 @@ props = [json.loads(l) for l in open('/verif/properties.jsonl')]
 TEMPLATE = open('/verif/tools/seed_prompt_template.txt').read()
 for p in props:
     pid = p['id']
+    if len(sys.argv) > 3 and pid not in sys.argv[3].split(','):
+        continue
     d = f'{work}/{pid}'
     os.makedirs(f'{d}/out', exist_ok=True)
     if not os.path.isdir(f'{d}/wt'):
